@@ -115,7 +115,7 @@ def gene_names(n, prefix='g'):
 
 
 @st.composite
-def marker_tables(draw, tree_data, ref_genes, root_required=True, density=None):
+def marker_tables(draw, tree_data, ref_genes, root_required=True, density=None, pooled=False):
     """per parent a random subset of reference genes; parents missing, lists
     empty, duplicates inside a list. Returns dict key -> list"""
     t = treemodel.Tree(tree_data)
@@ -134,6 +134,26 @@ def marker_tables(draw, tree_data, ref_genes, root_required=True, density=None):
         return lst
     big = (6, n) if dens >= 0.3 else (4, max(4, n // 2))
     out['None'] = pick(*big) if draw(st.integers(0, 4)) else pick(1 if root_required else 0, 2)
+    if pooled:
+        # short, heavily overlapping lists along every path: all non-root lists are drawn from a small
+        # pool of genes, so that the fallback rule has to walk several ancestors and lists share genes
+        pool_idx = draw(st.lists(st.integers(0, n - 1), min_size=3, max_size=min(6, n), unique=True))
+        pool = [ref_genes[i] for i in pool_idx]
+        if draw(st.booleans()):
+            out['None'] = pick(*big) if draw(st.booleans()) else list(draw(st.permutations(pool)))[:draw(st.integers(1, len(pool)))] + [out['None'][0]]
+        for p in t.all_parents()[1:]:
+            mode = draw(st.sampled_from(['short', 'short', 'short', 'missing', 'empty', 'list']))
+            key = f'{p[0]}/{p[1]}'
+            if mode == 'missing':
+                continue
+            if mode == 'empty':
+                out[key] = []
+            elif mode == 'list':
+                out[key] = pick(*big)
+            else:
+                k = draw(st.integers(1, min(3, len(pool))))
+                out[key] = list(draw(st.permutations(pool)))[:k]
+        return out
     for p in t.all_parents()[1:]:
         mode = draw(st.sampled_from(['list', 'list', 'list', 'list', 'short', 'missing', 'empty']))
         if mode == 'missing':
@@ -232,11 +252,11 @@ def map_configs(draw, tree_data, n_cells, factor=None, allow_flatten=True, allow
 @st.composite
 def map_cases(draw, max_levels=4, max_leaves=10, factor=None, allow_flatten=True,
               allow_drop=True, min_top=1, max_cells=12, dtypes=DTYPES, allow_odd=True,
-              family=None, tree=None, max_iter=12, encs=('csr', 'csc', 'dense'), mappers=True, min_levels=1):
+              family=None, tree=None, max_iter=12, encs=('csr', 'csc', 'dense'), mappers=True, min_levels=1, pooled_markers=False):
     tree_data = tree if tree is not None else draw(trees(max_levels=max_levels, max_leaves=max_leaves, min_levels=min_levels,
                                                          allow_odd=allow_odd, min_top=min_top, mappers=mappers))
     ref = draw(ref_specs(tree_data, family=family))
-    markers = draw(marker_tables(tree_data, ref['genes']))
+    markers = draw(marker_tables(tree_data, ref['genes'], pooled=bool(pooled_markers) and draw(st.booleans())))
     # at least one root gene is placed in the query (usable at the root)
     root_gene = markers['None'][0]
     query = draw(query_specs(ref['genes'], must_include=(root_gene,), max_cells=max_cells,
